@@ -69,6 +69,7 @@ def judge(case):
         elif '\n' in c.text:
             line += c.text.count('\n')
     out_lines = r.out.split(b'\n')
+    src_lines = case.src.split(b'\n')
     fails = []
     seen = set()
     exercised = set()
@@ -107,6 +108,45 @@ def judge(case):
                                               'first_in': rule, 'first_out': NAME.get(av, str(av))}))
             continue
         # ---- B: behaviour, measured in the output bytes
+        if rule == 'sp_before_nl_cont' and t2 == 'NL_CONT' and not tokrel.is_cmt(t1) and cfgd.get('align_nl_cont', '0') == '0':
+            # the blanks between the last token of a continued line and its backslash
+            a = pos.get((l1, c1))
+            if a is None or not a[1].text or a[0] - 1 >= len(out_lines):
+                continue
+            text = out_lines[a[0] - 1].decode('utf-8', 'replace').rstrip('\r')
+            ia = a[1].column - 1
+            ta = a[1].text
+            if '\t' in text[:ia] or text[ia:ia + len(ta)] != ta:
+                counts['unlocatable'] += 1
+                continue
+            m = re.match(r'^( *)\\$', text[ia + len(ta):])
+            if not m:
+                counts['unlocatable'] += 1
+                continue
+            gap = m.group(1)
+            counts['measured'] += 1
+            if nondefault:
+                exercised.add('%s=%s' % (rule, v))
+            bad = None
+            if av == 3 and len(gap) != 1:
+                bad = 'force: %d blanks' % len(gap)
+            elif av == 1 and len(gap) < 1:
+                bad = 'add: no blank'
+            elif av == 2 and len(gap) != 0:
+                bad = 'remove: %d blanks' % len(gap)
+            elif av == 0 and l1 == l2 and l1 - 1 < len(src_lines) and src_lines[l1 - 1].rstrip(b'\r').endswith(b'\\'):
+                # (only for a continuation that exists in the input: newline passes also insert new backslash-newlines)
+                had = src_lines[l1 - 1].rstrip(b'\r')[:-1].endswith((b' ', b'\t'))
+                if (len(gap) > 0) != bool(had):
+                    bad = 'ignore: input %s a blank, output has %d' % ('had' if had else 'had no', len(gap))
+            if bad:
+                key = ('B', rule, v, bad.split(':')[0])
+                if key not in seen:
+                    seen.add(key)
+                    fails.append(('behaviour', {'class': 'gap-' + bad.split(':')[0], 'at': [rule, v], 'got': [bad], 'index': a[0],
+                                                'in': ['%s=%s (returned %s)' % (rule, v, NAME.get(av, av))], 'out': [repr(text[max(0, ia - 10):])],
+                                                'first_in': rule, 'first_out': bad}))
+            continue
         if rule in SKIP_BEHAVIOUR or tokrel.is_cmt(t1) or tokrel.is_cmt(t2) or t2 in ('NEWLINE', 'NL_CONT') or t1 in ('NEWLINE', 'NL_CONT'):
             continue
         a = pos.get((l1, c1))
